@@ -5,7 +5,8 @@ package qbft
 // Part 1 (environment): 4 real Consensus components (real NewConsensus, real core.NewDutyGater, real
 // core.NewDeadliner, real round timers) wired through a stub libp2p host whose streams carry the real wire
 // frames into the real registered stream handler (p2p.RegisterHandler with maxConsensusMsgSize). One instance
-// is run, in virtual time (testing/synctest), to a decision in round 2 with a prepared value; every frame sent
+// is run, in virtual time (testing/synctest), to a decision with a value prepared in round 1 (the real eager timer
+// ends round 2 the moment it starts, so the decision falls in round 3); every frame sent
 // is captured: this is the corpus of VALID messages (plus a DECIDED built with the package's createMsg).
 // Part 2 (enumeration): every corpus message x alteration families, each fed to a fresh receiver component;
 // the oracle (c05judge) is independent of verifyMsg/hashProto: a QBFTMsg is authentic iff exactly that content
@@ -167,7 +168,7 @@ type c05net struct {
 	sent  []c05sent
 	drop  func(from, to int, m *pbv1.QBFTConsensusMsg) bool
 	rewr  func(from int, frame []byte) []byte // a Byzantine member's outgoing frames
-	q     chan c05sent // deliveries are serialised in send order: a long verification cannot be overtaken
+	q     chan c05sent                        // deliveries are serialised in send order: a long verification cannot be overtaken
 }
 
 func (n *c05net) dispatch(ctx context.Context) {
@@ -613,7 +614,6 @@ func c05describe(en *c05entry) string {
 	return fmt.Sprintf("%s pr=%d just=[%s] values=%d bytes=%d", en.Key, en.msg.GetMsg().GetPreparedRound(), strings.Join(js, " "), len(en.msg.GetValues()), len(en.wire))
 }
 
-
 // ---------------------------------------------------------------------------------------------------------
 // the oracle: is this exactly a message the named member signed for an allowed, unexpired duty, with all
 // justifications likewise and for the same duty, within the limits, every referenced hash resolvable?
@@ -907,6 +907,9 @@ func (x *c05x) emit(id, class string, payload []byte) {
 		x.r.Count("rejected_at_decode", 1)
 	case o.Accepted:
 		x.r.Count("accepted", 1)
+		if !strings.HasPrefix(class, "wire:") {
+			x.r.Outcome("accepted " + x.base.Kind + ":" + c05noIndex(class))
+		}
 	default:
 		x.r.Count("rejected_by_handle", 1)
 	}
@@ -956,6 +959,25 @@ func (x *c05x) emitMsg(id, class string, alt *pbv1.QBFTConsensusMsg) {
 		return
 	}
 	x.emit(id, class, b)
+}
+
+// c05noIndex replaces list indices by [i] (evidence only).
+func c05noIndex(s string) string {
+	var b strings.Builder
+	in := false
+	for _, c := range s {
+		switch {
+		case c == '[':
+			in = true
+			b.WriteString("[i")
+		case c == ']':
+			in = false
+			b.WriteRune(c)
+		case !in:
+			b.WriteRune(c)
+		}
+	}
+	return b.String()
 }
 
 func c05clone(m *pbv1.QBFTConsensusMsg) *pbv1.QBFTConsensusMsg {
@@ -1008,7 +1030,7 @@ func (x *c05x) famWire(mask byte) {
 // ---------------------------------------------------------------------------------------------------------
 
 type c05leaf struct {
-	path   string                         // msg / justification[i]
+	path   string // msg / justification[i]
 	target func(*pbv1.QBFTConsensusMsg) *pbv1.QBFTMsg
 	fds    []protoreflect.FieldDescriptor // field path inside the QBFTMsg
 }
@@ -1354,7 +1376,11 @@ func (x *c05x) famValues(thorough bool) {
 		for ki, pk := range keys {
 			data := inner.GetSet()[pk]
 			kt := fmt.Sprintf("inner[%d]", ki)
-			repack(kt+".key-changed", func(s *pbv1.UnsignedDataSet) { delete(s.Set, pk); s.Set[pk[:len(pk)-1]+"0"] = data; s.Set[pk[:len(pk)-1]+"1"] = data })
+			repack(kt+".key-changed", func(s *pbv1.UnsignedDataSet) {
+				delete(s.Set, pk)
+				s.Set[pk[:len(pk)-1]+"0"] = data
+				s.Set[pk[:len(pk)-1]+"1"] = data
+			})
 			repack(kt+".removed", func(s *pbv1.UnsignedDataSet) { delete(s.Set, pk) })
 			repack(kt+".data-emptied", func(s *pbv1.UnsignedDataSet) { s.Set[pk] = nil })
 			repack(kt+".data-truncated", func(s *pbv1.UnsignedDataSet) { s.Set[pk] = data[:len(data)-1] })
@@ -1784,7 +1810,7 @@ func c05checkDecided(e *c05env, live c05live, count func(string, int), byz bool)
 				round, agreed = m.GetMsg().GetRound(), m.GetMsg().GetValueHash()
 			}
 		}
-		lead := leaderIndependent(duty, 1)
+		lead := c05leader(duty, 1)
 		for i := 0; i < c05n; i++ {
 			got := live.delivered[i][duty]
 			if byz && i == 3 {
@@ -1830,7 +1856,7 @@ const c05expectedKeys = "PRE_PREPARE/r1/p0 PRE_PREPARE_J/r3/p2 " +
 	"ROUND_CHANGE_P/r2/p0 ROUND_CHANGE_P/r2/p1 ROUND_CHANGE_P/r2/p2 ROUND_CHANGE_P/r3/p0 ROUND_CHANGE_P/r3/p1 ROUND_CHANGE_P/r3/p2 " +
 	"DECIDED/r3/p0"
 
-func leaderIndependent(d core.Duty, round int64) int {
+func c05leader(d core.Duty, round int64) int {
 	return int((int64(d.Slot) + int64(d.Type) + round) % c05n)
 }
 
